@@ -43,6 +43,8 @@ def main():
             print(r.stdout[-1500:])
         ok &= suite_ok
         if rs:
+            # some demonstrations include_str! helper files from ../SEEDED/
+            shutil.copytree(seeded, os.path.join(scratch, "SEEDED"), dirs_exist_ok=True)
             for f in rs:
                 shutil.copy(f, os.path.join(scratch, "tests", os.path.basename(f)))
             tests = [os.path.splitext(os.path.basename(f))[0] for f in rs]
